@@ -31,11 +31,14 @@ func oracleC06(v *View, vd *Verdict) {
 			t     int64
 		}
 		var cl, br []*ex
-		died := false
+		endT := int64(-1) // the session stops here (shutdown at the end of the run, or an earlier death)
 		for _, e := range sv.Evs {
+			if endT >= 0 {
+				break
+			}
 			switch e.Kind {
 			case EvEnd, EvShutdown, EvBFin, EvBClose, EvMqClose:
-				died = true
+				endT = e.T
 			case EvC2G:
 				if e.SNErr != nil {
 					break
@@ -80,17 +83,17 @@ func oracleC06(v *View, vd *Verdict) {
 				}
 			}
 		}
-		if died {
-			continue
+		if endT < 0 {
+			endT = v.R.SimNs
 		}
-		budget := plan.Cfg.RetryDelayMs*nsMs*int64(plan.Cfg.RetryCount+2) + int64(6e9)
+		budget := plan.Cfg.RetryDelayMs*nsMs*int64(plan.Cfg.RetryCount+2) + int64(3e9)
 		for _, a := range cl {
 			for _, b := range br {
 				if a.id != b.id || abs64(a.t-b.t) > plan.Broker.AnswerDelayMs*nsMs+int64(200e6) {
 					continue
 				}
 				vd.Trigger = true
-				if v.R.SimNs-a.t < budget || v.R.SimNs-b.t < budget {
+				if endT-a.t < budget || endT-b.t < budget {
 					continue
 				}
 				if !a.done {
